@@ -166,6 +166,9 @@ type c18Run struct {
 	b        *vh.Batch
 	scanOps  int
 	diagSeen int
+	// one-shot reader failures (c18_oneshot.go)
+	oneshotRuns int
+	oneshotDur  time.Duration
 }
 
 func posEq(p cedar.Position, w polPos) bool {
@@ -316,6 +319,19 @@ func (r *c18Run) doc(d c18Doc, scheds []schedKind, failAt []int, leanScans int) 
 			r.b.Add("scan", map[string]any{"src": src, "chunks": sizes, "buflen": 1024, "final": "fail"}, toks, "scan:fail")
 		}
 	}
+	// readers that fail exactly once (error together with data / without, then EOF / resume / sticky): c18_oneshot.go
+	// (every mode at every position for documents whose failAt list is exhaustive; otherwise every mode at
+	// policy boundaries and one random mode at four of the sampled positions)
+	if len(failAt) == len(d.Bytes)+1 {
+		r.oneshot(d, base, failAt, nil, scheds)
+	} else {
+		some := append([]int{}, failAt...)
+		c.Rng.Shuffle(len(some), func(i, j int) { some[i], some[j] = some[j], some[i] })
+		if len(some) > 4 {
+			some = some[:4]
+		}
+		r.oneshot(d, base, c18PolicyBoundaries(c.Rng, d), some, scheds)
+	}
 }
 
 // boundaryPads: pads that put each internal byte split of an interesting token / multi-byte character at offset 1024*k.
@@ -378,7 +394,7 @@ func boundaryPads(d c18Doc, class string, maxSplits int) []int {
 
 func runC18(c *vh.Ctx) {
 	r := &c18Run{c: c, b: &vh.Batch{}}
-	c.Res.Rule = "documents assembled from policy tokens/strings/comments/CR-LF trivia/1-4-byte characters (positions of each policy's first token computed while assembling), padded so that every internal byte split of a token of each class and of a multi-byte character falls on offset 1024k; plus malformed documents (truncated, mutated, garbage incl. NUL/invalid UTF-8/unterminated literals). Each document x reader schedules {whole,1,2,3,4,1023,1024,1025,random,+zero-length reads} x final {EOF, data-with-EOF} x reader failure at byte k (every k for short documents). distinct = (document, chunk list, final); non-trivial = document has a token or a lexical error and the schedule has more than one chunk"
+	c.Res.Rule = "documents assembled from policy tokens/strings/comments/CR-LF trivia/1-4-byte characters (positions of each policy's first token computed while assembling), padded so that every internal byte split of a token of each class and of a multi-byte character falls on offset 1024k; plus malformed documents (truncated, mutated, garbage incl. NUL/invalid UTF-8/unterminated literals). Each document x reader schedules {whole,1,2,3,4,1023,1024,1025,random,+zero-length reads} x final {EOF, data-with-EOF} x reader failure at byte k (every k for short documents), sticky (error repeated with n=0) and one-shot (error once, with n>0 or n=0, then EOF / the rest of the document / the error again; every policy boundary and every byte of small multi-policy documents): TokenizeReader and Decoder must report an error. distinct = (document, chunk list, final); non-trivial = document has a token or a lexical error and the schedule has more than one chunk"
 	all := c18Scheds
 	small := []schedKind{c18Scheds[0], c18Scheds[1], c18Scheds[2], c18Scheds[3], c18Scheds[4], c18Scheds[8], c18Scheds[9], c18Scheds[12]}
 	everyK := func(n int) []int {
@@ -442,7 +458,11 @@ func runC18(c *vh.Ctx) {
 		d := buildMalformedDoc(c.Rng, base)
 		r.doc(d, all, sampleK(len(d.Bytes), 2), 2)
 	}
-	c.Res.Notes = append(c.Res.Notes, fmt.Sprintf("lean scan ops=%d, diagnostic entries checked=%d, go side %.1fs", r.scanOps, r.diagSeen, time.Since(c.Start).Seconds()))
+	// 5. small multi-policy documents: a reader failing once at EVERY byte position, every one-shot mode
+	for _, d := range c18OneShotDocs(c.Rng, c.N(3, 60)) {
+		r.doc(d, small, everyK(len(d.Bytes)), 1)
+	}
+	c.Res.Notes = append(c.Res.Notes, fmt.Sprintf("lean scan ops=%d, diagnostic entries checked=%d, one-shot reader runs=%d (%.1fs), go side %.1fs", r.scanOps, r.diagSeen, r.oneshotRuns, r.oneshotDur.Seconds(), time.Since(c.Start).Seconds()))
 	if r.diagSeen == 0 {
 		c.Report(vh.Finding{Class: "self-test", What: "no Authorize diagnostic entry was produced by any document", Check: "oracle", NoInput: true})
 	}
